@@ -31,7 +31,8 @@ def classify : Result → Cls × String
   | .noparse => (.noparse, "")
   | .invalid e => (match sigCls e with | .err t => .verr t | .unsup w => .unsup w | _ => .vother, "")
   | .done r st =>
-    let log := logText st
+    -- only the x.mark entries are an observable of C06 (logger output is not)
+    let log := "|".intercalate (st.log.toList.filter (·.startsWith "m"))
     if log.contains '?' then (.unsup "log shows a value the model does not know", "") else
     match r with
     | .ok _ => (.ok, log)
@@ -57,24 +58,39 @@ def runtimeErrHex : String := hexEnc (strBytes "Runtime error")
     wraps them into a "Runtime error"; `range` signals "Function is an iterator") -/
 def primsClass (name : String) (ix : List Nat) : Option Cls :=
   let args := ix.map fun i => univ.getD i .null
+  -- class-only models of builtins that are in neither model: they ignore their arguments or only check the first
+  if name == "now" || name == "rand" || name == "dumpenv" then some .ok
+  else if name == "sleep" then
+    match args with
+    | [] => some (.err "")
+    | a :: _ => match Ecal.Prims.assertNumParam a with | .ok _ => some .ok | .error _ => some (.err "")
+  else
   match Ecal.Prims.builtin name args with
   | none => none
   | some r =>
-    if name == "raise" then
-      match ix with
-      | [] => some (.err runtimeErrHex)
-      | i :: _ => match univText.getD i none with
-        | some t => some (.err (hexEnc (strBytes t)))
-        | none => none
-    else match r with
+    match r with
       | .ok _ => some .ok
-      | .error (.err _) => some (.err runtimeErrHex)
-      | .error .iter => some (.err (hexEnc (strBytes tIsIter)))
+      | .error (.err _) => some (.err "")
+      | .error .iter => some (.err "")
       | .error (.panic _) => some .panic
 
+/-- class of `(U_i) like (U_j)`: the right operand is printed and compiled as a regular expression; the left one is
+    only printed. Printed forms that are no regular expression: `[]`, `map[]`, `+Inf` -/
+def likeClass (j : Nat) : Option Cls :=
+  if j == 13 then none            -- a function value: its printed form contains addresses
+  else if j == 9 || j == 11 || j == 17 then some (.err "")
+  else some .ok
+
+/-- break / continue / return signals: try hands them through (they are not errors) -/
+def isControlCls : Cls → Bool
+  | .err t => t == hexEnc (strBytes tBreak) || t == hexEnc (strBytes tContinue) || t == hexEnc (strBytes tReturn)
+  | _ => false
+
+/-- what C06 compares of an outcome: value / error value / control signal / validation error / no parse — never
+    the error type, text or position (C03 / C04 compare those) -/
 def clsText : Cls → String
-  | .ok => "OK" | .err t => "ERR " ++ t | .errplain => "ERRPLAIN" | .noparse => "NOPARSE" | .verr t => "V ERR " ++ t
-  | .vother => "V" | .unsup w => "UNSUP " ++ w | .hang => "HANG" | .panic => "PANIC"
+  | .ok => "OK" | .err t => if isControlCls (.err t) then "CTL" else "ERR" | .errplain => "ERR" | .noparse => "NOPARSE"
+  | .verr _ => "V" | .vother => "V" | .unsup w => "UNSUP " ++ w | .hang => "HANG" | .panic => "PANIC"
 
 def mark (n : Nat) : String := "m" ++ canonVal {} canonDepth (.num (Float.ofNat n))
 
@@ -83,19 +99,14 @@ def joinLog (a b : String) : String := if a.isEmpty then b else if b.isEmpty the
 def isErr : Cls → Bool
   | .err _ => true | .errplain => true | _ => false
 
-/-- break / continue / return signals: try hands them through (they are not errors) -/
-def isControlCls : Cls → Bool
-  | .err t => t == hexEnc (strBytes tBreak) || t == hexEnc (strBytes tContinue) || t == hexEnc (strBytes tReturn)
-  | _ => false
-
 /-- what the three modes must show, from the class of the plain program -/
 def modeResult (mode : String) (c : Cls) (log : String) : String :=
   match c with
   | .unsup w => "UNSUP " ++ w
   | .hang => "HANG" | .panic => "PANIC"
   | .noparse => if mode == "p" || mode == "t" then "NOPARSE" else "SINKFAIL NOPARSE"
-  | .verr t => if mode == "p" || mode == "t" then "V ERR " ++ t else "SINKFAIL V ERR " ++ t
-  | .vother => "UNSUP validation outcome"
+  | .verr _ => if mode == "p" || mode == "t" then "V" else "SINKFAIL V"
+  | .vother => if mode == "p" || mode == "t" then "V" else "SINKFAIL V"
   | c =>
     if mode == "p" then clsText c ++ " LOG " ++ log
     else if mode == "t" then
@@ -108,6 +119,13 @@ def modeResult (mode : String) (c : Cls) (log : String) : String :=
     else if mode == "d" then
       -- two sinks on ONE event: the other sink (higher priority) runs, this one fails alone
       s!"SINKD {if isErr c then 1 else 0} LOG {joinLog (mark 3) log}"
+    else if mode == "f" then
+      -- the failing sink FIRST (fail-on-first-error is the default, C10): the later sink of the SAME event does not
+      -- run, the error is reported for this sink only, the next event is processed normally
+      s!"SINKF {if isErr c then 1 else 0} 0 LOG {joinLog (joinLog log (if isErr c then "" else mark 3)) (mark 2)}"
+    else if mode == "m" then
+      -- the failing sink in the MIDDLE of three
+      s!"SINKM {if isErr c then 1 else 0} 0 LOG {joinLog (joinLog (joinLog (mark 4) log) (if isErr c then "" else mark 3)) (mark 2)}"
     else
       -- the same sink triggered twice: the second invocation behaves like the first
       s!"SINKW {if isErr c then 1 else 0} {if isErr c then 1 else 0} LOG {joinLog log log}"
@@ -116,12 +134,14 @@ def sinkAttrClass (attr : String) (i : Nat) : String :=
   open Ecal.Prims in
   let v := univ.getD i .null
   let want : Kind := if attr == "statematch" then .map else if attr == "priority" then .num else .list
-  let invalidConstruct := "ERR " ++ hexEnc (strBytes "Invalid construct")
-  let invalidState := "ERR " ++ hexEnc (strBytes "Invalid state")
+  let invalidConstruct := "ERR"
+  let invalidState := "ERR"
   match sinkAttrSite want v with
   | .error (.panic _) => "PANIC"
   | .error _ => invalidConstruct
   | .ok v =>
+    -- d975ad6: a priority that does not fit into an int (±1e+300, NaN, ±Inf) is rejected
+    if attr == "priority" && (i == 5 || i == 15 || i == 16 || i == 17) then invalidConstruct else
     -- engine.AddRule refuses a rule without kind match / scope match (an empty ECAL list gives a nil Go slice)
     match attr, v with
     | "kindmatch", .list [] => invalidState
@@ -209,6 +229,14 @@ def runCase (payload : String) : String :=
         let c : Cls := match c with
           | .unsup w =>
             match metaS.splitOn ":" with
+            | ["imp", unit] =>
+              -- an imported unit (import is not in the evaluator model): fine units give a value, a unit that is
+              -- missing or fails to parse / validate / evaluate (also later, in its function) gives an error value
+              if unit == "ok" || unit == "okunused" then .ok else .err ""
+            | ["op", "like", ixs] =>
+              match (ixs.splitOn ",").map String.toNat! with
+              | [_, j] => (likeClass j).getD (.unsup w)
+              | _ => .unsup w
             | [name, ixs] =>
               let ix := if ixs == "-" then [] else (ixs.splitOn ",").map String.toNat!
               match primsClass name ix with
@@ -218,6 +246,14 @@ def runCase (payload : String) : String :=
           | c => c
         let nt := match c with | .err _ => "\tnt=1" | .errplain => "\tnt=1" | _ => ""
         modeResult mode c log ++ nt ++ (if fragOK prog then "\tfrag=1" else "\tfrag=0")
+  | ["T", _] => "OK\tnt=1"     -- triggers firing after Processor.Finish(): the callbacks notice the stopped processor
+  | ["D", variant, depth] =>
+    -- an acyclic container nested `depth` deep: shallow nesting works; very deep nesting overflows the Go stack in
+    -- reflect.DeepEqual (== / in / statematch) or in the printers (known finding, same id as the cyclic one)
+    if depth.toNat! ≤ 10000 then "OK\tnt=1"
+    else
+      let cls := if variant == "eq" || variant == "in" || variant == "statematch" then "CRASH so-deepequal" else "CRASH so-stringify"
+      cls ++ "\tkf=cyclic-container-stringify\tspec=OK\tnt=1"
   | ["K", _variant, _workers, prot, _n] =>
     -- a container shared by the main thread and a sink triggered without waiting: under `mutex` both finish;
     -- without it two ECAL threads use one Go map / slice unsynchronised (known finding; Go may or may not die)
